@@ -22,14 +22,14 @@ for K in (3, 4, 6):
     inp.fill(ex.obj, ex.ctx)
     ex.run()
     print('K', K, 'exec', round(time.time() - t0, 2), 'steps', ex.ctx.steps, 'unwind', len(ex.ctx.unwind), 'overflow', len(ex.ctx.overflow))
-    s = z3.Solver()
+    s = new_solver()
     s.add(*inp.constraints)
     s.push(); s.add(z3.Or(*[z(u) for u in ex.ctx.unwind])) if ex.ctx.unwind else s.add(False)
     r = s.check(); print(' unwind check:', r, round(time.time() - t0, 2)); s.pop()
     if r == z3.unsat:
         break
 t0 = time.time()
-ref, stats = L.reference_model(tc, inp.ref_inputs(), Dr.solver_changed_check(lambda: z3.Solver()))
+ref, stats = L.reference_model(tc, inp.ref_inputs(), Dr.solver_changed_check(lambda: new_solver()))
 print('oracle', round(time.time() - t0, 2), stats)
 obs = ex.observed()
 diffs = []
